@@ -1,5 +1,5 @@
 From Coq Require Import List NArith Bool.
-From V.gen Require Consts.
+From V.gen Require Consts PeerIdSites.
 From V.common Require Import Varint.
 From V.C18 Require Import Model Proofs.
 Import ListNotations.
@@ -56,3 +56,57 @@ Check (C18_varint_minimal :
   forall l n rest, bytes_ok l = true -> decode_u64 l = Some (n, rest) ->
     exists pre, l = pre ++ rest /\ (1 <= length pre <= 10)%nat /\ bytes_ok pre = true /\
                 ((length pre <= 9)%nat -> pre = encode n)).
+Check (C18_single_derivation :
+  forall (H : hash) (dec : decoder),
+  (forall k,
+     from_impl H k = from_public_key H k /\ publickey_to_peer_id H k = from_public_key H k /\
+     ed25519_to_peer_id H k = from_public_key H k /\ local_peer_id H k = from_public_key H k /\
+     identify_local_peer_id H k = from_public_key H k /\
+     from_public_key H k = derive H (key_encoding (KEd k))) /\
+  (forall k, remote_to_peer_id H k = derive H (key_encoding k)) /\
+  (forall identity verified,
+     tls_identity dec H identity verified = noise_identity dec H identity verified) /\
+  (forall identity k, dec identity = Some k ->
+     noise_identity dec H identity true = Some (derive H (key_encoding k)) /\
+     noise_identity dec H identity false = None) /\
+  (forall identity v, dec identity = None -> noise_identity dec H identity v = None)).
+Check (C18_derivation_sites :
+  derivation_sites = V.gen.PeerIdSites.sites).
+Check (C18_identity_encoding_irrelevant :
+  forall dec H b1 b2 v, dec b1 = dec b2 -> noise_identity dec H b1 v = noise_identity dec H b2 v).
+Check (C18_ed25519_id :
+  forall H k, length k = 32%nat -> from_public_key H k = mkPid 0 ([8; 1; 18; 32] ++ k)).
+Check (C18_rsa_id :
+  forall H pk, 19 <= len pk ->
+    remote_to_peer_id H (KRsa pk) = mkPid 18 (H ([8; 0; 18] ++ encode (len (spki pk)) ++ spki pk))).
+Check (C18_is_public_key_own :
+  forall H k, length k = 32%nat -> is_public_key H (from_public_key H k) k = Some true).
+Check (C18_is_public_key_true :
+  forall H p k, is_public_key H p k = Some true <->
+    p = mkPid 0 (encode_ed25519 k) \/ p = mkPid 18 (H (encode_ed25519 k))).
+Check (C18_random_valid :
+  forall r, length r = 32%nat -> bytes_ok r = true -> valid (random_pid r) = true).
+Check (C18_eq_iff_bytes :
+  forall p q, valid p = true -> valid q = true ->
+  (p = q <-> to_bytes p = to_bytes q) /\ (p = q <-> to_text p = to_text q) /\
+  (p = q <-> to_component p = to_component q) /\
+  (pid_eqb p q = true <-> p = q) /\ (pid_cmp p q = Eq <-> p = q)).
+Check (C18_ord_is_bytes_order :
+  forall p q, valid p = true -> valid q = true -> pid_cmp p q = list_cmp (to_bytes p) (to_bytes q)).
+Check (C18_serde_roundtrip :
+  forall p, valid p = true ->
+  de_hr (ser_hr p) = Some p /\ de_bin (ser_bin p) = Some p /\ of_json (json_of p) = Some p).
+Check (C18_serde_sound :
+  (forall t p, de_hr t = Some p -> valid p = true) /\ (forall b p, de_bin b = Some p -> valid p = true)).
+Check (C18_text_alphabet :
+  forall p c, In c (to_text p) -> In c alphabet /\ json_plain c = true /\ c <> SLASH).
+Check (C18_addr_text_roundtrip :
+  forall p, valid p = true ->
+  of_addr_text (to_addr_text p) = Some p /\
+  of_addr_text (SLASH :: NAME_IPFS ++ SLASH :: to_text p) = Some p).
+Check (C18_addr_text_valid :
+  forall t p, of_addr_text t = Some p -> valid p = true).
+Check (C18_addr_text_canonical_partial :
+  forall s p, ~ In SLASH s -> of_addr_text (SLASH :: NAME_P2P ++ SLASH :: s) = Some p ->
+  (forall b, b58_decode s = Some b -> (length b <= length (digest p) + 10)%nat) ->
+  SLASH :: NAME_P2P ++ SLASH :: s = to_addr_text p).
